@@ -889,6 +889,38 @@ impl TestPromptResponses {
     }
 }
 
+/// [verification hook] Resolves an argument vector to the effective spec and prints it.
+#[cfg(rjrssync_verif)]
+pub fn verif_resolve_args(argv: Vec<String>) -> Result<String, String> {
+    let args = BossCliArgs::try_parse_from(argv).map_err(|e| format!("clap: {:?}", e.kind()))?;
+    resolve_spec(&args).map(|s| format!("{:?}", s))
+}
+
+/// [verification hook] Parses a src/dest argument.
+#[cfg(rjrssync_verif)]
+pub fn verif_parse_remote_path_desc(s: &str) -> Result<(String, String, String), String> {
+    use std::str::FromStr;
+    RemotePathDesc::from_str(s).map(|r| (r.username, r.hostname, r.path))
+}
+
+/// [verification hook] Replaces the scripted prompt answers (same syntax as the environment variable),
+/// so that one process can run many prompt configurations.
+#[cfg(rjrssync_verif)]
+pub fn verif_set_prompt_responses(all_responses: &str) {
+    let mut result = TestPromptResponses { responses: vec![] };
+    for max_occurences_and_regex in all_responses.split(',') {
+        if max_occurences_and_regex.is_empty() {
+            continue;
+        }
+        let mut parts = max_occurences_and_regex.splitn(3, ':');
+        let max_occurences = parts.next().expect("Invalid syntax").parse::<usize>().expect("Invalid number");
+        let regex = Regex::new(parts.next().expect("Invalid syntax")).expect("Invalid regex");
+        let response = parts.next().expect("Invalid syntax");
+        result.responses.push((max_occurences, regex, response.to_string()));
+    }
+    *TEST_PROMPT_RESPONSES.lock().expect("Mutex problem") = result;
+}
+
 #[derive(Clone, Copy)]
 pub struct ResolvePromptResult<B> {
     /// The decision that was made for this occurence.
